@@ -321,6 +321,8 @@ class World:
                 def generate_key(bit_length: int) -> bytes:
                     if bit_length not in (128, 192, 256):
                         raise ValueError("bit_length must be 128, 192, or 256")
+                    if "aesgcm.generate_key" in ent.fail_sources:
+                        raise OSError(38, "Function not implemented")  # (the Rust side reads the same kernel source)
                     return ent.draw(bit_length // 8, "aesgcm.generate_key")
 
             patch(dcrypto, "AESGCM", SimAESGCM)
